@@ -1328,6 +1328,8 @@ func randomKey(n int) string {
 func (s *Server) reset() {
 	s.aofsz = 0
 	s.cols.Clear()
+	// hooks, channels and their indexes belong to the dataset as well
+	s.cmdFLUSHDB(&Message{Args: []string{"flushdb"}})
 }
 
 func (s *Server) command(msg *Message, client *Client) (
